@@ -62,9 +62,6 @@ func algoReport(c *Ctx, prop string, cs algoCase, v algoVerdict, compareModel bo
 		if prop == "C03" && k2Classifier(cs, v.Ans) {
 			known = "K2"
 		}
-		if prop == "C02" && k4Applies(cs) && hasCode(bad, 4) && len(bad) == 1 {
-			known = "K4"
-		}
 		rep.Disagreement(Disagreement{Kind: "spec", Name: codeNames[bad[0]], Input: cs, Impl: v.Ans.String(),
 			Expect: fmt.Sprintf("spec check codes %v", bad), Known: known})
 	}
@@ -75,11 +72,7 @@ func algoReport(c *Ctx, prop string, cs algoCase, v algoVerdict, compareModel bo
 			same = v.ModelAns.L[2].Equal(v.Ans.L[2])
 		}
 		if !same {
-			known := ""
-			if k4Applies(cs) {
-				known = ""
-			}
-			rep.Disagreement(Disagreement{Kind: "corr", Name: "corr:" + prop + ".algo_model", Input: cs, Impl: v.Ans.String(), Expect: v.ModelAns.String(), Known: known})
+			rep.Disagreement(Disagreement{Kind: "corr", Name: "corr:" + prop + ".algo_model", Input: cs, Impl: v.Ans.String(), Expect: v.ModelAns.String()})
 		}
 	}
 	if matched && len(cs.Text) > 3 {
